@@ -131,6 +131,9 @@ def align_up_pow2(x: int) -> int:
     """
     if x <= 0:
         return 1
+    if isinstance(x, int):
+        # exact for integers of any size (the logarithm of a double is not, from 2**49 + 1 on)
+        return 1 << (x - 1).bit_length()
     return 2 ** int(ceil(log2(x)))
 
 
